@@ -78,22 +78,36 @@ PadRoot(h, step) ==
       root   == IF Len(h) = 1 THEN H(h[1], h[1]) ELSE SeqRoot(h)
   IN Wrap(root, level2 - level1)
 
-\* GetMerkleRoot with ncpu = runtime.NumCPU() as a parameter
-StepOf(n, ncpu) ==
+\* GetMerkleRoot with ncpu = runtime.NumCPU() as a parameter.  The two tuning constants of the
+\* code are explicit parameters of the transcription: cap = 256 (largest chunk) and seqmax = 80
+\* (lists up to that length are hashed sequentially).  The algorithm is only correct when every
+\* chunk is a complete subtree, i.e. when the chunk size is a power of two -- which needs the cap
+\* to be a power of two (IsPow2; Merkle_MC checks the scaled regimes cap = 2, 4, 8 and shows that a
+\* cap that is not a power of two breaks the equality; the driver checks that every chunk size the
+\* code really uses is a power of two).
+RECURSIVE IsPow2(_)
+IsPow2(x) == x = 1 \/ (x > 1 /\ x % 2 = 0 /\ IsPow2(x \div 2))
+
+StepOfC(n, ncpu, cap) ==
   LET a == Log2(n \div ncpu)
       b == IF a < 1 THEN 1 ELSE a
       c == Pow2(b)
-  IN IF c > 256 THEN 256 ELSE c
+  IN IF c > cap THEN cap ELSE c
 
-ChunkRoot(s, ncpu) ==
+ChunkRootC(s, ncpu, cap, seqmax) ==
   LET n == Len(s) IN
-  IF n <= 80 \/ ncpu <= 1 THEN SeqRoot(s)
-  ELSE LET step == StepOf(n, ncpu)
+  IF n <= seqmax \/ ncpu <= 1 THEN SeqRoot(s)
+  ELSE LET step == StepOfC(n, ncpu, cap)
            l    == (n \div step) + (IF n % step # 0 THEN 1 ELSE 0)
            child(i) == SubSeq(s, (i - 1) * step + 1, Min(i * step, n))
            sub(i) == IF Len(child(i)) # step THEN PadRoot(child(i), step)
                      ELSE SeqRoot(child(i))
        IN SeqRoot([i \in 1..l |-> sub(i)])
+
+CodeCap == 256
+CodeSeqMax == 80
+StepOf(n, ncpu) == StepOfC(n, ncpu, CodeCap)
+ChunkRoot(s, ncpu) == ChunkRootC(s, ncpu, CodeCap, CodeSeqMax)
 
 -----------------------------------------------------------------------------
 \* Computation(leaves, flage, branchpos): flage is 3 here (root and branch);
